@@ -1,5 +1,7 @@
 import CrabProofs.Lemmas.FunctorFlatBoolLat2
 import CrabProofs.Lemmas.FunctorFlatBoolInst
+import CrabProofs.Lemmas.FunctorFlatBoolWF2
+import CrabProofs.Lemmas.FunctorHistory
 
 /-!
 # C04 for `flat_boolean_numerical_domain<Dom>` — inclusion and lattice operations vs. concretisation
@@ -11,11 +13,12 @@ base are explicit hypotheses (`LDom.LeqRefl`, `LeqTop`, `TopNotBot`, `TopIsTop`,
 
 * `operator<=` (after 6293d89) compares the product, the two maps and the unchanged set: a yes is an
   inclusion of concretisations, INCLUDING the recorded equivalences and implications;
-* `is_top()` (after 67052d5) also asks the maps to be top; it does not read `m_unchanged_vars`,
-  which is right because that set is never the bottom of its lattice on a non-bottom value;
-* `|` is an upper bound; `&` is a lower bound but NOT sound (it loses states): the statement
-  "`γ(a & b) = γ(a) ∩ γ(b)`" only holds for operands that mark the same variables unchanged
-  (`C03.flatbool_meet_sound_counterexample`).
+* `is_top()` (after 67052d5) also asks the maps to be top; it reads neither `m_is_bottom` nor
+  `m_unchanged_vars`, which is right on the values that satisfy the representation invariant
+  `FBN.WF`, preserved by every operation (`C04.flatbool_wf_step`, `_wf_history`);
+* `|` is an upper bound; `&` (after ef2ddd6) is sound, its product component is a lower bound, and
+  "`γ(a & b) = γ(a) ∩ γ(b)`" holds for operands that mark the same variables unchanged; in general
+  the result can be above an operand (`C04.flatbool_meet_lower_counterexample`: precision only).
 -/
 open Crab Crab.Dom Crab.Dom.Fct
 
@@ -47,26 +50,142 @@ theorem C04.flatbool_join_upper (w2 : N.B → N.B → N.B) (hw : N.USound w2) (a
     (h : a.γ s ∨ b.γ s) : (FBN.join a b).γ s ∧ (FBN.joinEq a b).γ s ∧ (FBN.widenWith w2 a b).γ s :=
   ⟨FBN.join_sound h, FBN.joinEq_sound h, FBN.widenWith_sound hw h⟩
 
-/-- `&` is a lower bound (on values whose product is well formed: `Prod2.WF`) -/
-theorem C04.flatbool_meet_lower (m2 : N.MeetLower) (t2 : N.TopSound) (a b : FBN N) (ha : a.prod.WF)
-    (hb : b.prod.WF) (s : CSt V) (h : (FBN.meet a b).γ s) : a.γ s ∧ b.γ s := FBN.meet_lower m2 t2 ha hb h
+/-- `&`, `&=`, `&&` are sound (C03) and their product component is a lower bound -/
+theorem C04.flatbool_meet_lower_product (m2 : N.MeetLower) (t2 : N.TopSound) (a b : FBN N) (ha : a.prod.WF)
+    (hb : b.prod.WF) (s : CSt V) (h : (FBN.meet a b).γ s) : a.prod.γ s ∧ b.prod.γ s :=
+  FBN.meet_lower_prod m2 t2 ha hb h
 
-/-- ... and exactly the intersection when both operands mark the same variables unchanged -/
+/-- `b10 := (v0 ≥ 1)` -/
+def C04FB.a : FBN FBInst.N0 := FBN.assignBoolCst id 10 (FBInst.C0.ge 0 1) FBN.top
+/-- `v0 = 0`, every Boolean true -/
+def C04FB.s : CSt Nat := ⟨fun _ => 0, fun _ => true⟩
+
+/-- full statement: `a & b` is below both operands -/
+def C04.flatbool_meet_lower_Statement : Prop :=
+  ∀ (V : Type) [DecidableEq V] (K : CSig V) (N : BNDom V K), N.MeetLower → N.TopSound →
+    ∀ (a b : FBN N), a.prod.WF → b.prod.WF → ∀ s, (FBN.meet a b).γ s → a.γ s ∧ b.γ s
+
+/-- ... it is when both operands mark the same variables unchanged -/
+theorem C04.flatbool_meet_lower_partial (m2 : N.MeetLower) (t2 : N.TopSound) (a b : FBN N) (ha : a.prod.WF)
+    (hb : b.prod.WF) (hs : FBN.sameUnch a b = true) (s : CSt V) (h : (FBN.meet a b).γ s) : a.γ s ∧ b.γ s :=
+  FBN.meet_lower m2 t2 ha hb hs h
+
+/-- ... and then `&` is exactly the intersection -/
 theorem C04.flatbool_meet_iff (m2 : N.MeetLower) (t2 : N.TopSound) (a b : FBN N) (ha : a.prod.WF)
     (hb : b.prod.WF) (hs : FBN.sameUnch a b = true) (s : CSt V) : (FBN.meet a b).γ s ↔ a.γ s ∧ b.γ s :=
-  ⟨FBN.meet_lower m2 t2 ha hb, fun h => (FBN.meet_sound_of_sameUnch hs h.1 h.2).1⟩
+  ⟨FBN.meet_lower m2 t2 ha hb hs, fun h => FBN.meet_sound h.1 h.2⟩
+
+/-- ... not in general (a loss of precision of the fix ef2ddd6, not of soundness): the result keeps
+    only the marks common to both operands, so a constraint that one operand could use alone is
+    unusable afterwards.  `(b10 := (v0 ≥ 1)) & top` still records `v0 ≥ 1` for `b10` but marks
+    nothing: it contains `b10 = true, v0 = 0`, which the left operand excludes.  (Keeping the union
+    of the marks and dropping, from each operand's map, the constraints that operand cannot use
+    would be sound AND a lower bound.) -/
+theorem C04.flatbool_meet_lower_counterexample : ¬ C04.flatbool_meet_lower_Statement := by
+  intro h
+  have hm : (FBN.meet C04FB.a FBN.top).γ C04FB.s := by
+    have hp : (FBN.meet C04FB.a FBN.top).prod = ⟨false, .env [], []⟩ := rfl
+    have hl : (FBN.meet C04FB.a FBN.top).lin = .env [(10, [FBInst.C0.ge 0 1])] := rfl
+    have hun' : (FBN.meet C04FB.a FBN.top).unch = .fin [] := rfl
+    refine ⟨?_, by rw [hl]; rfl, rfl, by rw [hun']; rfl, ?_, ?_⟩
+    · rw [hp]
+      exact ⟨rfl, (FB Nat).top_sound _, FBInst.N0.top_sound _⟩
+    · intro k c hc hun
+      have hu : FBN.unchanged (K := FBInst.K0) (FBN.meet C04FB.a FBN.top).unch c = false := by
+        rw [hun']
+        rw [hl] at hc
+        simp only [SEnv.look, AL.get, DSet.mem] at hc
+        split at hc
+        · have : c = FBInst.C0.ge 0 1 := by
+            have hc' : c ∈ ([FBInst.C0.ge 0 1] : List FBInst.K0.C) := by simpa using hc
+            exact List.mem_singleton.1 hc'
+          subst this; rfl
+        · simp at hc
+      rw [hu] at hun; cases hun
+    · intro k k' hk; cases hk
+  have := (h Nat FBInst.K0 FBInst.N0 FBInst.n0_meetLower FBInst.n0_topSound C04FB.a FBN.top
+    (Prod2.wf_of_not_isBot rfl) (Prod2.wf_of_not_isBot rfl) C04FB.s hm).1
+  have := (this.2.2.2.2.1 10 (FBInst.C0.ge 0 1) (by rfl) (by rfl)).1 rfl
+  simp [FBInst.K0, FBInst.C0.holds, C04FB.s] at this
+
+/-- the hypothesis of the partial theorem is satisfiable by non-trivial values -/
+example : FBN.sameUnch (FBN.assignBoolCst (N := FBInst.N0) id 10 (FBInst.C0.ge 0 1) FBN.top)
+    (FBN.assignBoolCst (N := FBInst.N0) id 11 (FBInst.C0.lt 0 5) FBN.top) = true := rfl
 
 /-- a yes of `is_bottom()` means no state -/
 theorem C04.flatbool_is_bottom_sound (a : FBN N) (s : CSt V) (h : a.isBottom = true) : ¬ a.γ s :=
   FBN.not_γ_of_isBottom h s
 
-/-- a yes of `is_top()` means every state; the two side conditions hold for every value that has
-    a state at all (`C04.flatbool_is_top_side_conditions`) and for `make_top()` -/
-theorem C04.flatbool_is_top_sound (t2 : N.TopSound) (a : FBN N) (hw : a.prod.WF)
-    (hu : a.unch.isBot = false) (h : a.isTop = true) (s : CSt V) : a.γ s := FBN.γ_of_isTop t2 hw hu h s
+/-- a yes of `is_top()` means every state, on every value that satisfies the representation
+    invariant `FBN.WF` (well-formed product; `m_unchanged_vars` bottom only under a bottom flat
+    part) — an invariant of every operation (`C04.flatbool_wf_step`), so no side condition is left
+    for the values a history can produce (`C04.flatbool_is_top_sound_history`) -/
+theorem C04.flatbool_is_top_sound (t2 : N.TopSound) (a : FBN N) (hw : a.WF) (h : a.isTop = true)
+    (s : CSt V) : a.γ s := FBN.γ_of_isTop_wf t2 hw h s
 
-theorem C04.flatbool_is_top_side_conditions (a : FBN N) (s : CSt V) (hg : a.γ s) :
-    a.prod.WF ∧ a.unch.isBot = false := ⟨Prod2.wf_of_not_isBot hg.1.1, hg.2.2.2.1⟩
+/-- every value that has a state at all is well formed -/
+theorem C04.flatbool_wf_of_γ (a : FBN N) (s : CSt V) (hg : a.γ s) : a.WF :=
+  FBN.wf_of_unch (Prod2.wf_of_not_isBot hg.1.1) hg.2.2.2.1
+
+/-- every constructor, transformer (with strict base functions) and lattice operation yields a
+    well-formed value from well-formed values -/
+theorem C04.flatbool_wf_step (isBool : V → Bool) (hN : FBN.StrictRed N) (op : FBN.Op N)
+    (hop : op.BaseStrict) : Step.Preserves FBN.WF (op.toStep isBool) := by
+  cases op with
+  | bcst d f2 x c => exact fun a ha => FBN.wf_assignBoolCst hop x c ha
+  | bvar d f2 x y neg => exact fun a ha => FBN.wf_assignBoolVar hop x y neg ha
+  | bbin d f2 op x y z => exact fun a ha => FBN.wf_applyBinaryBool hop op x y z ha
+  | bassume d f2 x neg => exact fun a ha => FBN.wf_assumeBool hN hop x neg ha
+  | bsel d f2 f2' lhs cond b1 b2 => exact fun a ha => FBN.wf_selectBool hop.1 hop.2 lhs cond b1 b2 ha
+  | numDef d m f2 x r => exact fun a ha => FBN.wf_numDef m hop x ha
+  | addCsts d t nb lits f2 r => exact fun a ha => FBN.wf_addCsts t nb lits hop ha
+  | forget1 d f2 v => exact fun a ha => FBN.wf_forget1 isBool hop v ha
+  | forget d f2 vs => exact fun a ha => FBN.wf_forget isBool hop vs ha
+  | project d f2 vs => exact fun a ha => FBN.wf_project hop vs ha
+  | wbcst d f2 x c => exact fun a ha => FBN.wf_weakAssignBoolCst hop x c ha
+  | wbvar d f2 x y neg => exact fun a ha => FBN.wf_weakAssignBoolVar hop x y neg ha
+  | trunc d dst src => exact fun a ha => FBN.wf_castTrunc dst src ha
+  | ext d funk dst src => exact fun a ha => FBN.wf_castExt hN hop dst src ha
+  | castOther d f2 dst r => exact fun a ha => FBN.wf_castOther hop dst ha
+  | join d a b => exact fun a b ha hb => FBN.wf_join ha hb
+  | joinEq d a b => exact fun a b ha hb => FBN.wf_joinEq ha hb
+  | widen d a b w2 => exact fun a b ha hb => FBN.wf_widenWith w2 ha hb
+  | meet d a b => exact fun a b ha hb => FBN.wf_meet ha hb
+  | meetEq d a b => exact fun a b ha hb => FBN.wf_meetEq ha hb
+  | narrow d a b => exact fun a b ha hb => FBN.wf_narrow ha hb
+  | copy d s => trivial
+  | setTop d => exact fun _ _ => FBN.wf_top
+  | setBottom d => exact FBN.wf_bottom
+
+theorem C04.flatbool_wf_history (isBool : V → Bool) (hN : FBN.StrictRed N) (ops : List (FBN.Op N))
+    (hops : ∀ op ∈ ops, op.BaseStrict) (p : Pool (FBN N)) (h0 : ∀ i, (p i).WF) :
+    ∀ i, (runHist p (FBN.toHist isBool ops) i).WF := by
+  apply runHist_preserves FBN.WF _ _ p h0
+  intro st hst
+  simp only [FBN.toHist, List.mem_map] at hst
+  obtain ⟨op, hop, rfl⟩ := hst
+  exact C04.flatbool_wf_step isBool hN op (hops op hop)
+
+/-- **`is_top()` after any history**: whatever the history did to a pool of well-formed values
+    (e.g. `make_top()` / `make_bottom()` everywhere), a yes of `is_top()` on a slot means every
+    state — no side condition on the value -/
+theorem C04.flatbool_is_top_sound_history (isBool : V → Bool) (t2 : N.TopSound) (hN : FBN.StrictRed N)
+    (ops : List (FBN.Op N)) (hops : ∀ op ∈ ops, op.BaseStrict) (p : Pool (FBN N)) (h0 : ∀ i, (p i).WF)
+    (i : Nat) (h : (runHist p (FBN.toHist isBool ops) i).isTop = true) (s : CSt V) :
+    (runHist p (FBN.toHist isBool ops) i).γ s :=
+  FBN.γ_of_isTop_wf t2 (C04.flatbool_wf_history isBool hN ops hops p h0 i) h s
+
+/-- without the invariant the answer can be wrong: a set bottom flag over top components -/
+theorem C04.flatbool_is_top_needs_wf :
+    let a : FBN FBInst.N0 := ⟨⟨true, .env [], []⟩, .top, .top, .fin []⟩
+    a.isTop = true ∧ (∀ s, ¬ a.γ s) ∧ ¬ a.WF := by
+  intro a
+  refine ⟨rfl, ?_, ?_⟩
+  · intro s h
+    have : (true : Bool) = false := h.1.1
+    cases this
+  · intro h
+    exact (h.1 rfl).1 ⟨fun _ => 0, fun _ => true⟩ ((FB Nat).top_sound _)
 
 /-- the old `is_top()` (before 67052d5: `m_product.is_top()` alone) was wrong: this value has a top
     product, and excludes the state `b10 = true, v0 = 0` -/
